@@ -133,7 +133,9 @@ def _(c):
     def pre(b):
         st = mk_motion_state(b, extended=b.gcode_table())
         live = b.new("GcodeHandlers", state=st, _logger=st._logger, gcodeParser=mk_parser(b))
-        return {"self": b.new("StreamProcessor"), "args": {"inputStream": b.opaque("inputStream"), "gcodeHandlers": live}}
+        import io
+        stream = io.BytesIO(b"") if getattr(b, "native", False) else b.opaque("inputStream")
+        return {"self": b.new("StreamProcessor"), "args": {"inputStream": stream, "gcodeHandlers": live}}
     c.pre(pre)
 
     def isolated(f):
